@@ -134,14 +134,33 @@ def cmd_roundtrip(path):
 
 # ---- C07: folding --------------------------------------------------------------------------------------------------------
 
+class EvalTimeout(BaseException):
+    pass
+
+
+def _alarm(signum, frame):
+    raise EvalTimeout()
+
+
 def value_repr(expr_src):
-    """evaluate a closed literal expression with this interpreter; canonical (type, value) description or exception type"""
+    """evaluate a closed literal expression with this interpreter; canonical (type, value) description or exception type.
+    A watchdog bounds the evaluation: an expression that the folder left alone because it is astronomically expensive (7**10**20) can still
+    reach this function when a *different* rewrite changed the text around it; 'too-expensive' then stands for its value on both sides."""
+    import signal
+    old = signal.signal(signal.SIGALRM, _alarm)
+    signal.alarm(5)
     try:
-        code = compile(expr_src, '<expr>', 'eval')
-        v = eval(code, {'__builtins__': {}}, {})
-    except Exception as e:
-        return ('raises', type(e).__name__)
-    return describe(v)
+        try:
+            code = compile(expr_src, '<expr>', 'eval')
+            v = eval(code, {'__builtins__': {}}, {})
+            return describe(v)
+        except EvalTimeout:
+            return ('too-expensive',)
+        except Exception as e:
+            return ('raises', type(e).__name__)
+    finally:
+        signal.alarm(0)
+        signal.signal(signal.SIGALRM, old)
 
 
 def describe(v):
